@@ -110,7 +110,7 @@ def run(chk, tier):
         if nlife < 8:
             chk.analysis_broken("LIFE: only %d members of %s analysed (floor 8)" % (nlife, owner))
     nrel = rel.check(chk, db, ["_utility/pair.hpp", "_tuple/tuple.hpp", "_functional/inplace_function.hpp"])
-    if nrel < 9:
+    if chk.rule_instances.get("REL", 0) < 9:      # operators found (an unmodelled body is UNKNOWN, not a lost subject)
         chk.analysis_broken("REL: only %d pair/tuple/function operators modelled" % nrel)
     tus, info = gen.generate(tier == "quick")
     res = wit.compile_many(tus, compiler="g++", jobs=16)
